@@ -22,6 +22,8 @@ programmer chose.
   C14 an f-string -> `"<template>".format(<values>)` (constant format specs and conversions kept).
   C15 `if c: ...; return x  else: REST` (also raise / continue / break) -> the `if` without `else`, followed by REST.
   C16 a chained assignment of a constant `a = b = 0.0` -> `a = 0.0; b = 0.0`.
+  C17 `x = []` + `for t in it: [if c:] x.append(e)` -> `x = [e for t in it if c]`.
+  C18 in a loop body `if c: continue` followed by REST -> `if not c: REST` (guard clauses of loops are nested).
   C5  statements without effect (a bare constant expression that is not a docstring; `pass` in a block that has
       other statements) are dropped.
 
@@ -144,14 +146,14 @@ class _Canon(ast.NodeTransformer):
             n.body = self._split_tuple_assign(n.body)
             n.orelse = self._split_tuple_assign(n.orelse) if n.orelse else n.orelse
         if not self.pattern:
-            n.body = self._guard_first(self._unelse(n.body))
-            n.orelse = self._guard_first(self._unelse(n.orelse)) if n.orelse else n.orelse
+            n.body = self._loop_to_comp(self._guard_first(self._unelse(n.body)))
+            n.orelse = self._loop_to_comp(self._guard_first(self._unelse(n.orelse))) if n.orelse else n.orelse
         leaves = lambda b: bool(b) and isinstance(b[-1], (ast.Return, ast.Raise, ast.Continue, ast.Break))
         size = lambda b: sum(1 for st in b for x in ast.walk(st) if isinstance(x, ast.stmt))
         if n.orelse and not self.pattern and leaves(n.orelse) and (not leaves(n.body) or size(n.orelse) < size(n.body)):
             # C15 (preparation): the branch that leaves (the shorter one when both leave) becomes the body - a guard
             # clause - so that the enclosing block can drop the `else`
-            neg = self.visit_UnaryOp(ast.copy_location(ast.UnaryOp(op=ast.Not(), operand=n.test), n.test))
+            neg = self._negate(n.test)
             n.test, n.body, n.orelse = neg, n.orelse, n.body
         elif n.orelse and not self.pattern and leaves(n.body) and (not leaves(n.orelse) or size(n.body) < size(n.orelse)):
             pass        # already in guard form
@@ -303,6 +305,41 @@ class _Canon(ast.NodeTransformer):
         return out
 
     # C15: `if c: ...; return/raise/continue/break  else: REST` -> the `if` without else, followed by REST
+    @staticmethod
+    def _loop_to_comp(body):
+        """C17: `x = []` directly followed by `for t in it: [if c: ...] x.append(e)` (nothing else in the loop, x not read
+        in it / c / e, no else) is `x = [e for t in it if c]`."""
+        out, i = [], 0
+        while i < len(body):
+            s = body[i]
+            nxt = body[i + 1] if i + 1 < len(body) else None
+            done = False
+            if isinstance(s, ast.Assign) and len(s.targets) == 1 and isinstance(s.targets[0], ast.Name) and isinstance(s.value, ast.List) \
+                    and not s.value.elts and isinstance(nxt, ast.For) and not nxt.orelse and len(nxt.body) == 1:
+                name = s.targets[0].id
+                inner, conds = nxt.body[0], []
+                while isinstance(inner, ast.If) and not inner.orelse and len(inner.body) == 1:
+                    conds.append(inner.test)
+                    inner = inner.body[0]
+                if isinstance(inner, ast.Expr) and isinstance(inner.value, ast.Call) and isinstance(inner.value.func, ast.Attribute) \
+                        and inner.value.func.attr == "append" and isinstance(inner.value.func.value, ast.Name) \
+                        and inner.value.func.value.id == name and len(inner.value.args) == 1 and not inner.value.keywords:
+                    elt = inner.value.args[0]
+                    reads = {x.id for e in [nxt.iter, elt] + conds for x in ast.walk(e) if isinstance(x, ast.Name)}
+                    binds = {x.id for x in ast.walk(nxt.target) if isinstance(x, ast.Name)}
+                    if name not in reads and name not in binds and not any(isinstance(x, (ast.Yield, ast.YieldFrom, ast.Await)) for e in [elt] + conds for x in ast.walk(e)):
+                        comp = ast.ListComp(elt=elt, generators=[ast.comprehension(target=nxt.target, iter=nxt.iter, ifs=conds, is_async=0)])
+                        new = ast.Assign(targets=[s.targets[0]], value=comp)
+                        ast.copy_location(new, s)
+                        ast.copy_location(comp, s)
+                        out.append(new)
+                        i += 2
+                        done = True
+            if not done:
+                out.append(s)
+                i += 1
+        return out
+
     def _guard_first(self, body):
         """[..., if c: A (leaves), *REST (leaves at its end, shorter than A)] -> [..., if not c: REST, *A]: of two exits the
         shorter one is the guard clause, whichever way it was written."""
@@ -312,7 +349,7 @@ class _Canon(ast.NodeTransformer):
             if isinstance(st, ast.If) and not st.orelse and leaves(st.body) and i + 1 < len(body):
                 rest = body[i + 1:]
                 if leaves(rest) and size(rest) < size(st.body) and not any(isinstance(x, (ast.FunctionDef, ast.ClassDef)) for x in rest):
-                    neg = self.visit_UnaryOp(ast.copy_location(ast.UnaryOp(op=ast.Not(), operand=st.test), st.test))
+                    neg = self._negate(st.test)
                     a = st.body
                     st.test, st.body = neg, rest
                     return body[:i + 1] + self._guard_first(a)
@@ -338,7 +375,7 @@ class _Canon(ast.NodeTransformer):
             if isinstance(b, list) and b and isinstance(b[0], ast.stmt):
                 b = self._strip(b, keep_doc=doc and f == "body")
                 if not self.pattern:
-                    b = self._guard_first(self._unelse(self._split_tuple_assign(b)))
+                    b = self._loop_to_comp(self._guard_first(self._unelse(self._split_tuple_assign(b))))
                 setattr(n, f, b)
         return n
 
@@ -353,8 +390,27 @@ class _Canon(ast.NodeTransformer):
     def visit_Module(self, n):
         return self._block(n, doc=True)
 
+    def _negate(self, test):
+        """canonical negation of a test (`not not x` is x in a test position)"""
+        if isinstance(test, ast.UnaryOp) and isinstance(test.op, ast.Not):
+            return test.operand
+        return self.visit_UnaryOp(ast.copy_location(ast.UnaryOp(op=ast.Not(), operand=test), test))
+
+    # C18: in a loop body, `if c: continue` followed by REST is `if not c: REST`
+    def _nest_continue(self, body):
+        for i, st in enumerate(body):
+            if isinstance(st, ast.If) and not st.orelse and len(st.body) == 1 and isinstance(st.body[0], ast.Continue) and i + 1 < len(body):
+                rest = self._nest_continue(body[i + 1:])
+                neg = self._negate(st.test)
+                new = ast.copy_location(ast.If(test=neg, body=rest, orelse=[]), st)
+                return body[:i] + [new]
+        return body
+
     def visit_For(self, n):
-        return self._block(n)
+        n = self._block(n)
+        if not self.pattern and isinstance(n, (ast.For, ast.While)):
+            n.body = self._nest_continue(n.body)
+        return n
 
     visit_While = visit_For
     visit_With = visit_For
